@@ -1280,6 +1280,31 @@ int32 matrixRegisterSession(ssl_t *ssl)
 
 /******************************************************************************/
 /*
+    Does ssl->sessionId name a session cache entry this connection registered
+    or resumed?  A connection resumed from a session ticket, and any TLS 1.3
+    connection, only echoes an identifier the client chose: it holds no entry,
+    whatever those bytes are.
+ */
+static int32 connHoldsCacheEntry(const ssl_t *ssl)
+{
+#  ifdef USE_STATELESS_SESSION_TICKETS
+    if (ssl->sid != NULL &&
+        ssl->sid->sessionTicketState == SESS_TICKET_STATE_USING_TICKET)
+    {
+        return 0;
+    }
+#  endif
+#  ifdef USE_TLS_1_3
+    if (NGTD_VER(ssl, v_tls_1_3_any))
+    {
+        return 0;
+    }
+#  endif
+    return 1;
+}
+
+/******************************************************************************/
+/*
     Decrement inUse to keep the reference count meaningful
  */
 int32 matrixClearSession(ssl_t *ssl, int32 remove)
@@ -1290,6 +1315,17 @@ int32 matrixClearSession(ssl_t *ssl, int32 remove)
     if (ssl->sessionIdLen <= 0)
     {
         return PS_ARG_FAIL;
+    }
+    if (!connHoldsCacheEntry(ssl))
+    {
+        /* Nothing of this connection is in the table */
+        if (remove)
+        {
+            Memset(ssl->sessionId, 0x0, SSL_MAX_SESSION_ID_SIZE);
+            ssl->sessionIdLen = 0;
+            ssl->flags &= ~SSL_FLAGS_RESUMED;
+        }
+        return PS_SUCCESS;
     }
     id = ssl->sessionId;
 
@@ -1422,6 +1458,11 @@ int32 matrixUpdateSession(ssl_t *ssl)
     if (ssl->sessionIdLen == 0)
     {
         /* No table entry.  matrixRegisterSession was full of inUse entries */
+        return PS_LIMIT_FAIL;
+    }
+    if (!connHoldsCacheEntry(ssl))
+    {
+        /* The id is the client's: not a reference to a table entry */
         return PS_LIMIT_FAIL;
     }
     id = ssl->sessionId;
